@@ -13,7 +13,7 @@ from concurrent.futures import ThreadPoolExecutor
 
 import pipeline as pl
 
-ALL_SEEDS = [int(x) for x in os.environ.get('VERIF_C19_SEEDS', '1,2,3,4,5,6,7,8,9').split(',')]   # development aid
+ALL_SEEDS = [int(x) for x in os.environ.get('VERIF_C19_SEEDS', '1,2,3,4,5,6,7,8,9,10').split(',')]   # development aid
 CODECS = ['ber', 'der', 'per', 'uper', 'oer', 'jer', 'xer', 'gser']
 MODEL_MUTANTS = ['InlineIgnoresAutomaticTagging', 'ExtractIgnoresAutomaticTagging',
                  'InlineCopiesTextAcrossTagDefaults', 'InlineIntoAutomaticModule']
